@@ -1,5 +1,5 @@
 # replay of a bounded stand-in violation (C09/C10): re-run native/c09_engine.py
 import sys
-print('fock [Del q1, measure q2, feed q0]: raised ParameterError: q2: trying to use a nonexistent measurement result (e.g., before it has been measured). (after [])')
+print('C10: q*conjugate(q) of a measured parameter with outcome (-0.25-1.5j) evaluates to (-2.1875+0.75j), the function of the outcome is (2.3124999999999996+0j)')
 print('REPLAY-VIOLATION')
 sys.exit(1)
